@@ -35,6 +35,7 @@ func init() {
 	cf := "internal/backends/compiler_wat/compile_func.go"
 	hp := "waroot/src/runtime/heap.wat.ws"
 	register(&Property{ID: "C11", Run: runC11, Mutants: []Mutant{
+		{Name: "array IndexOf helper returns a borrowed element", File: "internal/backends/compiler_wat/wir/value_array.go", Old: "\t\tblock.Insts = append(block.Insts, x.ExtractByName(\"m\"+strconv.Itoa(i)).EmitPush()...)\n\t\tblock.Insts = append(block.Insts, ret.EmitPop()...)", New: "\t\tblock.Insts = append(block.Insts, x.ExtractByName(\"m\"+strconv.Itoa(i)).EmitPushNoRetain()...)\n\t\tblock.Insts = append(block.Insts, ret.EmitPopNoRelease()...)", Expect: "helper-local-ownership"},
 		{Name: "deferred interface call: scratch register released but not re-initialised", File: cf, Old: "\t\tinsts = append(insts, free_data.EmitRelease()...)\n\t\tinsts = append(insts, free_data.EmitInit()...)\n\n\t\tinsts = append(insts, closure.EmitPushNoRetain()...)", New: "\t\tinsts = append(insts, free_data.EmitRelease()...)\n\n\t\tinsts = append(insts, closure.EmitPushNoRetain()...)", Expect: "register-release-reinit :: functionGenerator.genMakeDefer"},
 		{Name: "comma-ok interface assertion forgets to retain", File: "waroot/src/runtime/interface.wat.ws", Old: "\t    local.get $d.b\n\t\tcall $runtime.Block.Retain\n\t    local.get $d.d\n\t    local.get $t\n\t    local.get $eq\n\t    i32.const 1", New: "\t    local.get $d.b\n\t    local.get $d.d\n\t    local.get $t\n\t    local.get $eq\n\t    i32.const 1", Expect: "commaok-sibling"},
 		{Name: "block push forgets to retain", File: vb, Old: "\tinsts = append(insts, wat.NewInstCall(\"runtime.Block.Retain\"))\n\treturn\n}\n\nfunc (v *aBlock) EmitPushNoRetain", New: "\treturn\n}\n\nfunc (v *aBlock) EmitPushNoRetain", Expect: "leaf-pairing :: aBlock.EmitPush"},
@@ -50,6 +51,9 @@ func init() {
 		{Name: "allocation no longer zeroed", File: hp, Old: "\t\ti64.const 0\n\t\ti64.store\n", New: "\t\tdrop\n", Expect: "alloc-zeroed"},
 	}})
 	register(&Property{ID: "C12", Run: runC12, Mutants: []Mutant{
+		{Name: "[]rune to string conversion retains the slice it only lends", File: "internal/backends/compiler_wat/wir/instruction_emitter.go", Old: "\t\t\tinsts = append(insts, x.EmitPushNoRetain()...)\n\t\t\tinsts = append(insts, wat.NewInstCall(\"runtime.stringFromRuneSlice\"))", New: "\t\t\tinsts = append(insts, x.EmitPush()...)\n\t\t\tinsts = append(insts, wat.NewInstCall(\"runtime.stringFromRuneSlice\"))", Expect: "runtime-call-args-borrowed"},
+		{Name: "RcEnable only on the indirectly embedded path", File: "internal/ssa/emit.go", Old: "\t\t\tv = f.emit(instr)\n\t\t\temitRcEnable(f, instr.Pos())\n\t\t\t// Load the field's value iff indirectly embedded.\n\t\t\tif isPointer(fld.Type()) {\n", New: "\t\t\tv = f.emit(instr)\n\t\t\t// Load the field's value iff indirectly embedded.\n\t\t\tif isPointer(fld.Type()) {\n\t\t\t\temitRcEnable(f, instr.Pos())\n", Expect: "rc-bracket-paired"},
+		{Name: "array IndexOf helper retains its result a second time", File: "internal/backends/compiler_wat/wir/value_array.go", Old: "f.Insts = append(f.Insts, ret.EmitPushNoRetain()...)", New: "f.Insts = append(f.Insts, ret.EmitPush()...)", Expect: "helper-local-ownership"},
 		{Name: "storing nil skips the release of the old value", File: vb, Old: "\tinsts = append(insts, addr.EmitPush()...)                       // a\n\tinsts = append(insts, v.EmitPush()...)                          // a v", New: "\tif v.Kind() == ValueKindConst && v.Name() == \"0\" {\n\t\tinsts = append(insts, addr.EmitPush()...)\n\t\tinsts = append(insts, wat.NewInstConst(wat.U32{}, \"0\"))\n\t\tinsts = append(insts, wat.NewInstStore(toWatType(v.Type()), offset, 1))\n\t\treturn\n\t}\n\tinsts = append(insts, addr.EmitPush()...)                       // a\n\tinsts = append(insts, v.EmitPush()...)                          // a v", Expect: "overwrite-release :: aBlock.emitStoreToAddr: every store releases the old value"},
 		{Name: "function epilogue stops releasing registers", File: cf, Old: "\t\t\twir_fn.Insts = append(wir_fn.Insts, i.EmitRelease()...)\n", New: "\t\t\t_ = i\n", Expect: "epilogue-release"},
 		{Name: "epilogue releases before pushing the results", File: cf, Old: "\tfor _, r := range g.var_rets {\n\t\twir_fn.Insts = append(wir_fn.Insts, r.EmitPush()...)\n\t}\n\n\tfor _, i := range g.registers {\n\t\tif g.none_rc_registers == nil || !g.none_rc_registers[i] {\n\t\t\twir_fn.Insts = append(wir_fn.Insts, i.EmitRelease()...)\n\t\t}\n\t}\n", New: "\tfor _, i := range g.registers {\n\t\tif g.none_rc_registers == nil || !g.none_rc_registers[i] {\n\t\t\twir_fn.Insts = append(wir_fn.Insts, i.EmitRelease()...)\n\t\t}\n\t}\n\n\tfor _, r := range g.var_rets {\n\t\twir_fn.Insts = append(wir_fn.Insts, r.EmitPush()...)\n\t}\n", Expect: "epilogue-release"},
@@ -62,7 +66,7 @@ func init() {
 }
 
 func rcLoad(c *Ctx) (*Prog, *packages.Package, *packages.Package) {
-	p := c.Load(LoadOpt{Light: true}, "./internal/backends/compiler_wat", "./internal/backends/compiler_wat/wir")
+	p := c.Load(LoadOpt{Light: true}, "./internal/backends/compiler_wat", "./internal/backends/compiler_wat/wir", "./internal/ssa")
 	return p, p.MustPkg("leaf-pairing", "internal/backends/compiler_wat/wir"), p.MustPkg("epilogue-release", "internal/backends/compiler_wat")
 }
 
@@ -89,6 +93,7 @@ func runC11(c *Ctx) {
 		return
 	}
 	c11Extra(c, p, bkp)
+	c12HelperLocals(c, p, wp, "borrow")
 	info := wp.TypesInfo
 	const r1, r2, r3 = "leaf-pairing", "aggregate-delegation", "forwarder-purity"
 
@@ -398,43 +403,8 @@ func c11Runtime(c *Ctx, p *Prog) {
 	if ha, ok := m.ByName["$runtime.HeapAlloc"]; !ok {
 		c.Undecided(r5, "$runtime.HeapAlloc", "", "function not found")
 	} else {
-		im := -1
-		for i, in := range ha.Body {
-			if in.Op == "call" && len(in.Args) > 0 && in.Args[0] == "$runtime.malloc" {
-				im = i
-			}
-		}
-		// after malloc: a loop at depth 0 containing `i64.const 0 ; i64.store` (or memory.fill with const 0) and no return / br out before it
-		good := false
-		detail := "no zero-fill found after the malloc call"
-		if im >= 0 {
-			inLoop := false
-			for i := im + 1; i < len(ha.Body); i++ {
-				in := ha.Body[i]
-				if in.Op == "return" && !inLoop && !good {
-					detail = "a return between the malloc call and the zero fill"
-					break
-				}
-				if in.Op == "loop" && in.Depth == 0 {
-					inLoop = true
-				}
-				if inLoop && in.Op == "end" && in.Depth == 0 {
-					inLoop = false
-				}
-				if inLoop && (in.Op == "i64.store" || in.Op == "i32.store") && i > 0 {
-					prev := ha.Body[i-1]
-					if strings.HasSuffix(prev.Op, ".const") && len(prev.Args) > 0 && prev.Args[0] == "0" {
-						good = true
-					}
-				}
-				if in.Op == "memory.fill" {
-					good = true
-				}
-			}
-		} else {
-			detail = "no call to $runtime.malloc"
-		}
-		c.Check(good, r5, "$runtime.HeapAlloc", fmt.Sprintf("%s:%d", ha.File, ha.Line), "zero-fill loop between malloc and the result", "$runtime.HeapAlloc: "+detail+": fresh blocks contain stale bytes that the generated code reads as reference counts and pointers")
+		good, detail := c11AllocZeroed(m, ha)
+		c.Check(good, r5, "$runtime.HeapAlloc", fmt.Sprintf("%s:%d", ha.File, ha.Line), "every returned block is zeroed over its whole size", "$runtime.HeapAlloc: "+detail+": fresh blocks contain stale bytes that the generated code reads as reference counts and pointers")
 	}
 }
 
@@ -451,6 +421,9 @@ func runC12(c *Ctx) {
 		return
 	}
 	const r1, r2, r3, r4 = "epilogue-release", "overwrite-release", "onfree-completeness", "release-recursion"
+	c12HelperLocals(c, p, wp, "leak")
+	c12RuntimeArgs(c, p, wp, bk)
+	c12RcBrackets(c, p, p.Pkg("internal/ssa"))
 	// (1)
 	if s, fd := seqOf(p, bk, "functionGenerator.genFunction"); fd == nil {
 		c.Undecided(r1, "genFunction", "", "function not found")
